@@ -140,6 +140,18 @@ func (fr *Frame) nativeCall(b *ssa.BasicBlock, st *State, name string, callee *s
 			fmt.Sprintf("(forall ((i Int)) (=> (and (<= 0 i) (< i (sl_len %s))) (= (select (select %s (sl_arr %s)) (+ (sl_off %s) i)) (select (select %s (sl_arr %s)) (+ (sl_off %s) i)))))", xs, hp, xs, xs, hp, ys, ys))))
 		fc.addFact("true", sImp(r, sEq(fr.bseqOf(st, x), fr.bseqOf(st, y))))
 		return Val{S: r, Typ: resT}, true
+	case "crypto/subtle.ConstantTimeCompare":
+		fr.trust("crypto/subtle.ConstantTimeCompare: 1 iff same length and same bytes, else 0")
+		x, y := args[0], args[1]
+		xs, ys := fr.scalar(x), fr.scalar(y)
+		h := heapElem(types.Typ[types.Uint8])
+		fc.regVar(h, arr2Sort("Int"))
+		hp := fc.get(st, h)
+		r := fc.freshConst("ct_eq", "Bool")
+		fc.addFact("true", sEq(r, sAnd(sEq(sApp("sl_len", xs), sApp("sl_len", ys)),
+			fmt.Sprintf("(forall ((i Int)) (=> (and (<= 0 i) (< i (sl_len %s))) (= (select (select %s (sl_arr %s)) (+ (sl_off %s) i)) (select (select %s (sl_arr %s)) (+ (sl_off %s) i)))))", xs, hp, xs, xs, hp, ys, ys))))
+		fc.addFact("true", sImp(r, sEq(fr.bseqOf(st, x), fr.bseqOf(st, y))))
+		return Val{S: sIte(r, "1", "0"), Typ: resT}, true
 	case "(encoding/binary.bigEndian).PutUint64", "(encoding/binary.littleEndian).PutUint64":
 		fr.trust(name + ": writes the 8 bytes of the value; panics if len < 8")
 		bs := fr.scalar(args[1])
